@@ -14,6 +14,7 @@ import (
 
 	"github.com/modelcontextprotocol/go-sdk/mcp"
 	"github.com/modelcontextprotocol/go-sdk/verif/memhttp"
+	"github.com/modelcontextprotocol/go-sdk/verif/memio"
 	"github.com/modelcontextprotocol/go-sdk/verif/vt"
 	"pgregory.net/rapid"
 )
@@ -22,13 +23,15 @@ import (
 // carries the per-request metadata in the body and its mirror in the HTTP headers.
 
 type HTTPScript struct {
-	Msgs []Msg `json:"msgs"` // independent requests, all with per-request metadata variants
-	JSON bool  `json:"json"`
+	Msgs  []Msg `json:"msgs"` // independent requests, all with per-request metadata variants
+	JSON  bool  `json:"json"`
+	Spell int   `json:"spell,omitempty"` // memio.Respell mode for the request bodies
 }
 
 func genHTTP(rt *rapid.T) HTTPScript {
 	var s HTTPScript
 	s.JSON = rapid.Bool().Draw(rt, "json")
+	s.Spell = rapid.SampledFrom([]int{0, 0, 0, 1, 2, 3, 4}).Draw(rt, "spell")
 	n := rapid.IntRange(1, 8).Draw(rt, "n")
 	for i := 0; i < n; i++ {
 		m := Msg{Method: rapid.SampledFrom([]string{"ping", "server/discover", "tools/list", "tools/call", "prompts/list", "resources/list", "logging/setLevel", "resources/subscribe", "resources/unsubscribe", "resources/read", "prompts/get", "initialize"}).Draw(rt, "method")}
@@ -88,7 +91,7 @@ func runHTTPInBubble(s HTTPScript) (res vt.Result) {
 		mu.Lock()
 		before, toolBefore := len(reached), toolRuns
 		mu.Unlock()
-		body := m.wire(i)
+		body := memio.Respell(m.wire(i), s.Spell)
 		version := "2026-07-28"
 		if m.Meta == "newer" {
 			version = "2099-01-01"
